@@ -151,7 +151,7 @@ pub fn handle(st: &mut State, toks: &[&str]) -> HResult {
             let sched = parse_sched(sc)?;
             let mut w = LimWriter { acc: Vec::new(), limit: limit.min(1 << 40) as usize, zero, sched, i: 0 };
             let r = t.serialize_into(&mut w);
-            Some(format!("{} n={} sh={:016x}", if r.is_ok() { "ok" } else { "err" }, w.acc.len(), fnv_bytes(&w.acc)))
+            Some(format!("{} n={} sh={:016x}", super::codec::show_write_result(&r, &w), w.acc.len(), fnv_bytes(&w.acc)))
         }
         ["tserde_events", d] => {
             let t = st.tm[slot('t', d)?].as_ref()?;
